@@ -12,6 +12,8 @@
 -/
 import YtkModel.Generated.Constants
 import YtkProofs.K8s
+import YtkProofs.GapK8s
+import YtkProofs.Props
 import YtkProofs.RebuildB
 import YtkProofs.ValidB
 import YtkProofs.Decisions
@@ -417,5 +419,105 @@ theorem source_constants :
     Generated.const? "k8s.keyData" = some "data" ∧
     Generated.const? "k8s.keyStringData" = some "stringData" ∧
     Generated.const? "k8s.keyBinaryData" = some "binaryData" := by decide
+
+/-! ### round 8 (lean/CLAUSES_B.md, clauses C17.1, C17.4, C17.5, C17.7) -/
+
+/-- C17.1 end to end, from the RAW decoded manifest to the value handed back to the YAML encoder
+    (`save_other_fields` / `load_save_items` speak about an arbitrary well-formed `Manifest`; that a LOADED
+    manifest's document is the input was not stated): for every decoded manifest `doc` (a Go map) that
+    loads, the written value is a mapping `out` such that every field outside the two data sections is
+    the input's field, and loading `out` again gives the same item maps in the same sections. -/
+theorem load_write_roundtrip (doc : AMap Val) (hd : AMap.Sorted doc) (m : Manifest)
+    (h : load (.obj doc) = .ok m) :
+    m.doc = doc ∧
+    ∃ out m', (writeTo m).2 = .obj out ∧ load (.obj out) = .ok m' ∧
+      m'.str = m.str ∧ m'.bin = m.bin ∧ m'.bk = m.bk ∧ m'.tk = m.tk ∧
+      ∀ k, k ≠ m.bk → k ≠ m.tk → AMap.get? out k = AMap.get? doc k := by
+  have hw := K8s.load_wf hd h
+  have hdoc := load_doc h
+  refine ⟨hdoc, (beforeSave m).doc, _, rfl, load_writeTo hw, rfl, rfl, rfl, rfl, ?_⟩
+  intro k hb ht
+  have := beforeSave_other hw hb ht
+  simpa [writeTo, hdoc] using this
+
+/-- C17.4: `List()` is exactly the key set — a key is listed IFF `Get` finds it, on both facades
+    (`list_iff_get` above is one direction only) -/
+theorem list_mem_iff_get (m : Manifest) (k : String) :
+    (k ∈ strList m ↔ (strGet m k).isSome = true) ∧ (k ∈ binList m ↔ (binGet m k).isSome = true) :=
+  ⟨mem_keys_iff_get? m.str k, mem_keys_iff_get? m.bin k⟩
+
+/-- C17.7 beyond `load`: opening an embedded document and saving one never panic either — any mode, any
+    codec (also one that rejects everything), any file content, any document -/
+theorem openDoc_no_panic (mode : Mode) (file : Val) : openDoc mode file ≠ .panic := openDoc_ne_panic mode file
+
+theorem docSave_no_panic (mode : Mode) (d : Doc) : docSave mode d ≠ .panic := docSave_ne_panic mode d
+
+/-- C17.5: `Representable` cannot be dropped from `embedded_props_roundtrip` — the witness the comment
+    there describes, now proved: the document `l: [[], true]` (an empty list at a non-last index) is saved
+    as the single item `l[1]=true` and reopens as `l: [null, true]`. -/
+theorem embedded_props_needs_representable_counterexample :
+    let m : Manifest := ⟨[("kind", strVal "Secret")], [], [], "data", "stringData"⟩
+    let cb : Node := .cont [("l", .list [.list [], .leaf ⟨"string", "true"⟩])]
+    load (.obj [("kind", strVal "Secret")]) = .ok m ∧ WFm m ∧
+    ∃ d2 file d3, docSave .props ⟨cb, m⟩ = .ok (d2, file) ∧ openDoc .props file = .ok d3 ∧
+      d3.m.str = [("l[1]", "true")] ∧
+      d3.cb = .cont [("l", .list [Node.null, .leaf ⟨"string", "true"⟩])] ∧ d3.cb ≠ cb := by
+  intro m cb
+  have hl : load (.obj [("kind", strVal "Secret")]) = .ok m := by decide +kernel
+  refine ⟨hl, K8s.load_wf (.cons (by intro p hp; cases hp) .nil) hl, ?_⟩
+  have key : (match docSave .props ⟨cb, m⟩ with
+      | .ok (_, file) =>
+        (match openDoc .props file with
+          | .ok d3 => decide (d3.m.str = [("l[1]", "true")]) &&
+              decide (d3.cb = .cont [("l", .list [Node.null, .leaf ⟨"string", "true"⟩])])
+          | _ => false)
+      | _ => false) = true := by decide +kernel
+  cases hs : docSave .props ⟨cb, m⟩ with
+  | ok p =>
+    obtain ⟨d2, file⟩ := p
+    rw [hs] at key
+    cases ho : openDoc .props file with
+    | ok d3 =>
+      simp only [ho, Bool.and_eq_true, decide_eq_true_eq] at key
+      refine ⟨d2, file, d3, rfl, ho, key.1, key.2, ?_⟩
+      rw [key.2]
+      decide
+    | err => simp [ho] at key
+    | panic => simp [ho] at key
+  | err => simp [hs] at key
+  | panic => simp [hs] at key
+
+/-! ### round 8, cross-property: properties-mode reopen IS C16's FromProperties -/
+
+/-- the string items of a manifest as a flat map of string scalars (what magiconair would hand to C16) -/
+def strItems (m : Manifest) : AMap Scalar := m.str.map fun p => (p.1, (⟨"string", p.2⟩ : Scalar))
+
+/-- `DecodeEmbeddedProps` (this property's model) is literally `FromProperties` (C16's model) on the
+    string items: the same `AddValueAt` loop in key order -/
+theorem decodeEmbeddedProps_eq_fromProperties (m : Manifest) :
+    decodeEmbeddedProps m = .cont (Props.fromProperties (strItems m)) := by
+  simp only [decodeEmbeddedProps, Props.fromProperties, Props.fromPropertiesList, strItems, List.foldl_map]
+
+/-- hence C16's exactness theorem applies to what a k8s properties document reopens as: when no item
+    key is a dotted prefix of another (and the keys are path-safe), the reopened document's flattened
+    leaves are EXACTLY the string items — every item, as a string, nothing else.  (The converse round
+    trip, document → items → document, is `embedded_props_roundtrip`.) -/
+theorem embedded_props_open_flatten (m : Manifest) (h : WFm m)
+    (hk : ∀ p ∈ strItems m, Props.KeyOk p.1) (hpf : Props.PrefixFree (strItems m)) :
+    ∃ kvs, decodeEmbeddedProps m = .cont kvs ∧ flattenMap kvs = strItems m :=
+  ⟨_, decodeEmbeddedProps_eq_fromProperties m,
+    Props.flattenMap_fromProperties (sorted_map_val _ h.str_sorted) hpf
+      (fun p hp s hs => (hk p hp s hs).1) (fun p hp s hs => (hk p hp s hs).2)⟩
+
+/-- non-vacuity: items `a.b=1`, `a.c=x`, `k=` — path-safe, prefix-free; reopened as `{a: {b: 1, c: x}, k: ""}` -/
+theorem nonvacuous_embedded_props_open :
+    let m : Manifest := ⟨[("kind", strVal "Secret")], [("a.b", "1"), ("a.c", "x"), ("k", "")], [], "data", "stringData"⟩
+    (∀ p ∈ strItems m, Props.KeyOk p.1) ∧ Props.PrefixFree (strItems m) ∧
+    decodeEmbeddedProps m = .cont [("a", .cont [("b", .leaf ⟨"string", "1"⟩), ("c", .leaf ⟨"string", "x"⟩)]),
+      ("k", .leaf ⟨"string", ""⟩)] := by
+  intro m
+  refine ⟨?_, ?_, by decide +kernel⟩
+  · intro p hp s hs; revert s hs; revert p hp; decide +kernel
+  · intro p hp q hq; revert q hq; revert p hp; decide +kernel
 
 end Ytk.C17
